@@ -1277,10 +1277,8 @@ func (m *Machine) mapUpdate(mv Value, key, val Value) {
 	if mm.m == nil {
 		m.goPanic("assignment to entry in nil map")
 	}
-	if m.watching && mm.m.epoch < m.watchEpoch {
-		panic(&pathEnd{endWrite, "write to pre-existing map"})
-	}
 	i := m.mapFind(mm.m, key)
+	m.mapMutate(mm.m, false)
 	if i >= 0 {
 		mm.m.vals[i] = val
 		return
@@ -1409,6 +1407,7 @@ func (m *Machine) builtin(b *ssa.Builtin, args []Value, caller *frame, cc *ssa.C
 		}
 		i := m.mapFind(mm.m, args[1])
 		if i >= 0 {
+			m.mapMutate(mm.m, false)
 			mm.m.keys = append(mm.m.keys[:i:i], mm.m.keys[i+1:]...)
 			mm.m.vals = append(mm.m.vals[:i:i], mm.m.vals[i+1:]...)
 		}
